@@ -12,10 +12,12 @@
   * `WF s pod = true` (decidable, `Galaxy/Model/PluginC06.lean`): every pool of the configuration in force is well
     formed, pools are pairwise disjoint address sets, node subnets are pairwise identical or disjoint, the requested
     range lists are pairwise disjoint, names are non-empty without '_'.
-  * where the proof forced it, `AtMostOneWithoutRanges s pod` (a pod that requests no ranges holds at most one
-    address): without it `ipInfos[0]` in getSubnet and `ipInfos[:1]` in allocateIP are two independent map-order
-    choices - see `bound_ip_routable_counter` (reproduces on the real code: known finding
-    `bound-ip-not-routable:no-ranges-multi-owner`).
+  * `bound_ip_routable` / `holder_offered_only_routable` carry `AtMostOneWithoutRanges s pod` (a pod that requests no
+    ranges holds at most one address) because the plugin model admits ANY address of the key as `ipInfos[0]` /
+    `ipInfos[:1]` (Go map order; `bound_ip_routable_counter` = the pre-fix behaviour).  Since the fix "filter and bind
+    could pick different ips …" ByKeyAndIPRanges(key, nil) is sorted (`fact_by_key_without_ranges_sorted`); under the
+    admissibility refinement `choiceIsMin` this fact justifies, `bound_ip_is_lowest_held`, `bound_ip_routable_sorted`
+    and `holder_offered_only_routable_sorted` hold WITHOUT that hypothesis.
   Pairwise disjoint ranges are needed for `filter_then_bind_succeeds` only (`filter_then_bind_overlap_counter` = the
   documented TODO of ipam_crd.go).
 
@@ -472,21 +474,44 @@ def sTwo : State := run facts (init conf)
    .createPod "ns1" "a-0" .sts "a" "" 2 [] true, .listerSync true true]
 
 set_option maxRecDepth 100000 in
-/-- `AtMostOneWithoutRanges` is necessary for `bound_ip_routable` (and `holder_offered_only_routable`) AS THE CODE
-    STANDS: all other hypotheses hold, getSubnet's `ipInfos[0]` is 10.10.0.2 (pool A lists the /32 subnet of n3), so n3 is
-    approved; allocateIP's `ipInfos[:1]` is 10.10.0.5 (both are admissible map orders); Bind on n3 answers ok and writes
-    10.10.0.5, whose pool B does not list any subnet containing n3's address.  Reproduced on the real code
-    (corpus/C06/no-ranges-two-addresses.ops, Go map order decides per run): known finding
-    bound-ip-not-routable:no-ranges-multi-owner. -/
+/-- non-vacuity of `bound_ip_is_lowest_held` / `bound_ip_routable_sorted` / `holder_offered_only_routable_sorted`: the key
+    holds 10.10.0.2 and 10.10.0.5, both choices name the lowest one (the only choice `choiceIsMin` admits under the
+    sorted fact): Filter approves n1 and the /32 node n3, Bind on n3 writes 10.10.0.2 with pool A's ipinfo. -/
+example : sceneB sTwo "ns1" "a-0" podTwo = true ∧ WF sTwo podTwo = true ∧
+    minIP (ipsOfKey sTwo (keyOf podTwo)) = some 168427522 ∧
+    choiceIsMin Generated.C06.byKeyNoRangesSorted sTwo podTwo { first := some 168427522 } = true ∧
+    choiceIsMin Generated.C06.byKeyNoRangesSorted
+      (step facts sTwo (.filter "ns1" "a-0" allNodes { first := some 168427522 } 0)).1 podTwo
+      { first := some 168427522 } = true ∧
+    (step facts sTwo (.filter "ns1" "a-0" allNodes { first := some 168427522 } 0)).2.nodes = ["n1", "n3"] ∧
+    (step facts (step facts sTwo (.filter "ns1" "a-0" allNodes { first := some 168427522 } 0)).1
+      (.bind "ns1" "a-0" 2 "n3" { first := some 168427522 } 0 0)).2.ips = [⟨168427522, 24, 168427521, 2⟩] := by
+  refine ⟨by decide, by decide, by decide, by decide, by decide, by decide, by decide⟩
+
+set_option maxRecDepth 100000 in
+/-- The PRE-fix behaviour (`ByKeyAndIPRanges(key, nil)` in Go map order = `choiceIsMin false`, which admits any address of
+    the key, as the plugin model's own admissibility test still does): `AtMostOneWithoutRanges` was then necessary for
+    `bound_ip_routable` and `holder_offered_only_routable`.  getSubnet's `ipInfos[0]` is 10.10.0.2 (pool A lists the /32
+    subnet of n3), so n3 is approved; allocateIP's `ipInfos[:1]` is 10.10.0.5; Bind on n3 answers ok and writes
+    10.10.0.5, whose pool B lists no subnet containing n3's address.  With the sorted fact the bind choice is NOT
+    admissible (`choiceIsMin true … = false`).  Reproduced on the real code before the fix "filter and bind could pick
+    different ips of a pod which holds several without requesting ranges"; corpus/C06/no-ranges-two-addresses.ops must
+    now pass; `fact_by_key_without_ranges_sorted` breaks if the sort is removed. -/
 theorem bound_ip_routable_counter :
     sceneB sTwo "ns1" "a-0" podTwo = true ∧ WF sTwo podTwo = true ∧ ¬ AtMostOneWithoutRanges sTwo podTwo ∧
+    choiceIsMin false sTwo podTwo { first := some 168427522 } = true ∧
+    choiceIsMin false (step facts sTwo (.filter "ns1" "a-0" allNodes { first := some 168427522 } 0)).1 podTwo
+      { first := some 168427525 } = true ∧
+    choiceIsMin true (step facts sTwo (.filter "ns1" "a-0" allNodes { first := some 168427522 } 0)).1 podTwo
+      { first := some 168427525 } = false ∧
     "n3" ∈ (step facts sTwo (.filter "ns1" "a-0" allNodes { first := some 168427522 } 0)).2.nodes ∧
     (step facts (step facts sTwo (.filter "ns1" "a-0" allNodes { first := some 168427522 } 0)).1
       (.bind "ns1" "a-0" 2 "n3" { first := some 168427525 } 0 0)).2.res = .ok ∧
     (step facts (step facts sTwo (.filter "ns1" "a-0" allNodes { first := some 168427522 } 0)).1
       (.bind "ns1" "a-0" 2 "n3" { first := some 168427525 } 0 0)).2.ips = [⟨168427525, 24, 168427774, 3⟩] ∧
     ¬ Routable sTwo 168427525 "n3" := by
-  refine ⟨by decide, by decide, fun h => absurd (h rfl) (by decide), by decide, by decide, by decide, ?_⟩
+  refine ⟨by decide, by decide, fun h => absurd (h rfl) (by decide), by decide, by decide, by decide, by decide,
+    by decide, by decide, ?_⟩
   rw [routable_iff_b (by decide)]
   decide
 
